@@ -22,16 +22,23 @@ package main
 // specification with the reference name N0, whose identifier is the only
 // occurrence of "N0" with quotes in the output.  For "node" in Graphviz:
 //     P  "N0"  S1  N0  S2          (S1 = ` [shape=...label=<`, S2 = `> ]\n}\n`)
-// and for a name the output must be P X S1 name S2; X is what is left when
-// P and S1+name+S2 are taken away from both ends - no reading of X is
-// involved.  When the tail differs (the node "start" is drawn bold; a future
-// Dot may escape the label) X is what stands between P and the first
-// ` [shape=` (generated names never contain that).  For "target" the
-// identifier is written twice (placeholder statement, edge statement):
-//     A  X  B(name)  Y  E
-// X is cut as before, Y between the last `  "start" -> ` and the calibrated
-// tail E; both are emitted as cases.  Mermaid: `graph TB\n  n1("` T `")\n\n`
-// and `...n2["` T `"]\n  style n2 ...`, T by taking away both ends.
+// and for a name the output must be P X S1 L S2 with two unknown texts: the
+// identifier X and the label text L.  P and S2 are taken away from both
+// ends; X ends and L begins at the first occurrence of S1 (names that
+// contain ` [shape=` or `label=<` are not generated, so neither a correct
+// nor a raw rendering of the name can contain S1).  When S1 is not there (the
+// node "start" is drawn bold) X ends at the first ` [shape=` and L begins
+// behind the first `label=<` after it.  No reading of X or L is involved.
+// For "target" the identifier is written twice (placeholder statement, edge
+// statement):  P X S1 L S2 arrow Y E.  Y stands between the last
+// `  "start" -> ` and the calibrated tail E; X and L as before; X and Y are
+// emitted as mk_ttcase, L as (mk_ttlabel name L).  Mermaid:
+// `graph TB\n  n1("` T `")\n\n` and `...n2["` T `"]\n  style n2 ...`, T by
+// taking away both ends.
+//
+// position "doc": Nodes = {"D": {doc: text}} (text of 1..40 bytes, so that Dot
+// does not cut it); the frame is calibrated with the doc N0 and taken away
+// from both ends; what is left is emitted as (mk_ttdoc text written).
 //
 // Mermaid ids: one specification start -> t1, ..., tK (K branches in order)
 // declares K+1 nodes in a known order; the ids at the beginning of the node
@@ -62,7 +69,8 @@ func (s *ttSink) Close() error { return nil }
 // ttCase is one observation (also the replay format: Position + NameHex).
 type ttCase struct {
 	Kind     string `json:"kind"`
-	Position string `json:"position"` // node | target | nid
+	Position string `json:"position"`       // node | target | doc | nid
+	What     string `json:"what,omitempty"` // "" (identifier and Mermaid text) | label | doc
 	NameHex  string `json:"name_hex"`
 	Name     string `json:"name_go"` // strconv.Quote, for the reader
 	Dot      string `json:"dot_go,omitempty"`
@@ -74,7 +82,8 @@ type ttCase struct {
 	Problem  string `json:"problem,omitempty"`
 	DotText  string `json:"dot_text,omitempty"` // whole outputs, only when something could not be cut out
 	MerText  string `json:"mermaid_text,omitempty"`
-	LabelRaw bool   `json:"dot_label_is_raw_name,omitempty"`
+	Label    string `json:"label_go,omitempty"` // the text written inside label=<...> for the name / the doc
+	LabelHex string `json:"label_hex,omitempty"`
 }
 
 // ttCoqString renders any byte string as a Gallina term: a literal when it
@@ -105,6 +114,8 @@ func ttSpec(position, name string) *core.Spec {
 	switch position {
 	case "node":
 		return &core.Spec{Nodes: map[string]*core.Node{name: {}}}
+	case "doc":
+		return &core.Spec{Nodes: map[string]*core.Node{"D": {Doc: name}}}
 	default:
 		return &core.Spec{Nodes: map[string]*core.Node{
 			"start": {Branches: &core.Branches{Branches: []*core.Branch{{Target: name}}}}}}
@@ -164,6 +175,15 @@ func ttCalibrate(position string) *ttFrame {
 	}
 	q := `"` + ttRef + `"`
 	switch position {
+	case "doc":
+		p, s, ok := split2(dot, ttRef)
+		if !ok {
+			f.problem = "calibration: the reference doc string does not occur exactly once in the Dot output"
+			return f
+		}
+		f.dotP, f.dotS2 = p, s
+		f.ok = true
+		return f
 	case "node":
 		p, rest, ok := split2(dot, q)
 		if !ok || !strings.HasPrefix(rest, ttShape) {
@@ -226,8 +246,33 @@ func cut(text, prefix, suffix string) (string, bool) {
 
 const ttFailed = "<not found in the output>"
 
+const ttLabelAttr = "label=<"
+
+// splitStmt takes a node statement X S1 L S2 apart.
+func (f *ttFrame) splitStmt(stmt string, o *Out) (id, label string, ok bool) {
+	body, ok := cut(stmt, "", f.dotS2)
+	if !ok {
+		return "", "", false
+	}
+	if i := strings.Index(body, f.dotS1); i >= 0 {
+		o.count("dot: statement split at the calibrated attribute list")
+		return body[:i], body[i+len(f.dotS1):], true
+	}
+	i := strings.Index(body, ttShape)
+	if i < 0 {
+		return "", "", false
+	}
+	j := strings.Index(body[i:], ttLabelAttr)
+	if j < 0 {
+		return "", "", false
+	}
+	o.count("dot: statement split at ` [shape=` and `label=<`")
+	return body[:i], body[i+j+len(ttLabelAttr):], true
+}
+
 // observe renders the name in the position and cuts the texts out; the
-// result is one case (node) or two (target: placeholder and edge).
+// result is the identifier case(s) (node: one; target: placeholder and
+// edge) and the label case.
 func (f *ttFrame) observe(kind, position, name string, o *Out) []*ttCase {
 	base := func() *ttCase {
 		return &ttCase{Kind: kind, Position: position, NameHex: hex.EncodeToString([]byte(name)), Name: strconv.Quote(name)}
@@ -245,6 +290,15 @@ func (f *ttFrame) observe(kind, position, name string, o *Out) []*ttCase {
 	if problem != "" {
 		return fail(problem, dot, mer)
 	}
+	if position == "doc" {
+		d, ok := cut(dot, f.dotP, f.dotS2)
+		if !ok {
+			return fail("Dot output does not have the frame calibrated for a doc string", dot, mer)
+		}
+		c := base()
+		c.What, c.Label, c.LabelHex = "doc", strconv.Quote(d), hex.EncodeToString([]byte(d))
+		return []*ttCase{c}
+	}
 	t, ok := cut(mer, f.merP, f.merS)
 	if !ok {
 		return fail("Mermaid output does not have the calibrated frame", dot, mer)
@@ -254,19 +308,14 @@ func (f *ttFrame) observe(kind, position, name string, o *Out) []*ttCase {
 		return fail("Dot output does not begin with the calibrated frame", dot, mer)
 	}
 	rest := dot[len(f.dotP):]
-	labelRaw := false
+	var label string
 	switch position {
 	case "node":
-		if x, ok := cut(rest, "", f.dotS1+name+f.dotS2); ok {
-			ids = append(ids, x)
-			labelRaw = true
-			o.count("dot: identifier cut by taking both ends away")
-		} else if i := strings.Index(rest, ttShape); i >= 0 {
-			ids = append(ids, rest[:i])
-			o.count("dot: identifier cut at the attribute list")
-		} else {
-			return fail("no attribute list in the Dot node statement", dot, mer)
+		x, l, ok := f.splitStmt(rest, o)
+		if !ok {
+			return fail("the Dot node statement does not have the calibrated shape", dot, mer)
 		}
+		ids, label = append(ids, x), l
 	default:
 		body, ok := cut(rest, "", f.dotE)
 		if !ok {
@@ -276,29 +325,22 @@ func (f *ttFrame) observe(kind, position, name string, o *Out) []*ttCase {
 		if j < 0 {
 			return fail("no edge statement head in the Dot output", dot, mer)
 		}
-		y := body[j+len(f.dotArrow):]
-		head := body[:j]
-		if x, ok := cut(head, "", f.dotS1+name+f.dotS2); ok {
-			ids = append(ids, x)
-			labelRaw = true
-			o.count("dot: identifier cut by taking both ends away")
-		} else if i := strings.Index(head, ttShape); i >= 0 {
-			ids = append(ids, head[:i])
-			o.count("dot: identifier cut at the attribute list")
-		} else {
-			return fail("no attribute list in the Dot placeholder statement", dot, mer)
+		x, l, ok := f.splitStmt(body[:j], o)
+		if !ok {
+			return fail("the Dot placeholder statement does not have the calibrated shape", dot, mer)
 		}
-		ids = append(ids, y)
+		ids, label = append(ids, x, body[j+len(f.dotArrow):]), l
 	}
 	var acc []*ttCase
 	for _, id := range ids {
 		c := base()
 		c.Dot, c.Mermaid = strconv.Quote(id), strconv.Quote(t)
 		c.DotHex, c.MerHex = hex.EncodeToString([]byte(id)), hex.EncodeToString([]byte(t))
-		c.LabelRaw = labelRaw
 		acc = append(acc, c)
 	}
-	return acc
+	c := base()
+	c.What, c.Label, c.LabelHex = "label", strconv.Quote(label), hex.EncodeToString([]byte(label))
+	return append(acc, c)
 }
 
 func (c *ttCase) term() string {
@@ -307,7 +349,15 @@ func (c *ttCase) term() string {
 	}
 	name, _ := hex.DecodeString(c.NameHex)
 	if c.Problem != "" {
+		if c.Position == "doc" {
+			return fmt.Sprintf("(mk_ttdoc %s %s)", ttCoqString(string(name)), ttCoqString(ttFailed))
+		}
 		return fmt.Sprintf("(mk_ttcase %s %s %s)", ttCoqString(string(name)), ttCoqString(ttFailed), ttCoqString(ttFailed))
+	}
+	switch c.What {
+	case "label", "doc":
+		l, _ := hex.DecodeString(c.LabelHex)
+		return fmt.Sprintf("(mk_tt%s %s %s)", c.What, ttCoqString(string(name)), ttCoqString(string(l)))
 	}
 	d, _ := hex.DecodeString(c.DotHex)
 	m, _ := hex.DecodeString(c.MerHex)
@@ -322,6 +372,7 @@ var ttCorpus = []string{
 	`"`, `\`, `\\`, `\\\`, `\\\\`, `""`, `\"`, `"\`, `\\"`, `\"\`, `a\\`, `\\"b`, `a\`, `a\"`, `a"b`, `a\"b`, `a\\"b`, `a\\\"b`,
 	`" -> "x`, `x" [color="red"] "y`, `"; evil [label="pwned"]; "`, `\" -> \"x`, `a\\" ]` + "\n}\n",
 	"#", "##", "#35;", "#quot;", "#q", "#;", "a#b", `#"`, `"#`, "#35", "35;", "&quot;", "&#35;", "&", "&amp;", "#9829;",
+	"&lt;", "&gt;", "&amp;amp;", "&lt", "&;", "&&", "<&>", "a&b<c>d", "&amp;lt;",
 	"<", ">", "<>", "><", "<b>bold</b>", "a<b", "a>b", "</FONT>", "<BR/>", "> ]",
 	"\n", "a\nb", "\r\n", "\t", "a\tb", "\x00", "a\x00b", "\x7f", "\x1b[31m", "\\\n", "\\n", `\n"`, "\"\n\"",
 	"é", "日本語", "😀", " ", "\u00a0", "\u2028", "\ufeff", "\xff", "\xc3", "\xc3\x28", "a\x80b", "\xe2\x82", "\\\xc3\\", "\"\xff\"",
@@ -332,7 +383,7 @@ var ttCorpus = []string{
 }
 
 var ttFragments = []string{
-	`"`, `"`, `\`, `\`, `\\`, `\"`, "#", "#", "#35;", "#quot;", ";", "35;", "quot;", "<", ">", "&", "&quot;", "\n", "\t", "\r", "\x00", " ",
+	`"`, `"`, `\`, `\`, `\\`, `\"`, "#", "#", "#35;", "#quot;", ";", "35;", "quot;", "<", ">", "&", "<", ">", "&", "&quot;", "&amp;", "&lt;", "&gt;", "amp;", "lt;", "gt;", "\n", "\t", "\r", "\x00", " ",
 	"a", "b", "n", "1", "é", "日", "😀", "\xff", "\xc3", "\x80", "'", "(", ")", "[", "]", "{", "}", "|", "-", "->", "=", "%", "start",
 }
 
@@ -402,22 +453,28 @@ func ttNidCases(k int) []*ttCase {
 func toolsTextComponent(g *G, n int, opts map[string]string) *Out {
 	log.SetOutput(io.Discard)
 	o := newOut("Corr.ToolsTextCorr", "ttcase")
-	frames := map[string]*ttFrame{"node": ttCalibrate("node"), "target": ttCalibrate("target")}
+	frames := map[string]*ttFrame{"node": ttCalibrate("node"), "target": ttCalibrate("target"), "doc": ttCalibrate("doc")}
 	emit := func(c *ttCase) {
 		o.count("position:" + c.Position)
+		if c.What != "" {
+			o.count("case:" + c.What)
+		}
 		name, _ := hex.DecodeString(c.NameHex)
 		nontrivial := false
 		if c.Position == "nid" {
 			nontrivial = c.Num >= 10
 		} else {
 			nontrivial = strings.ContainsAny(string(name), "\"\\#")
+			if c.What != "" {
+				nontrivial = strings.ContainsAny(string(name), "&<>")
+			}
 			for what, on := range map[string]bool{
 				"name with a quote": bytes.IndexByte(name, '"') >= 0, "name with a backslash": bytes.IndexByte(name, '\\') >= 0,
 				"name with '#'": bytes.IndexByte(name, '#') >= 0, "name with '<' or '>'": bytes.ContainsAny(name, "<>"),
 				"name with a control character": bytes.IndexFunc(name, func(r rune) bool { return r < 32 || r == 127 }) >= 0,
 				"name with bytes >= 128":        bytes.IndexFunc(name, func(r rune) bool { return r >= 128 }) >= 0,
+				"name with '&'":                 bytes.IndexByte(name, '&') >= 0,
 				"empty name":                    len(name) == 0,
-				"dot label is the raw name":     c.LabelRaw,
 			} {
 				if on {
 					o.count(what)
@@ -430,15 +487,20 @@ func toolsTextComponent(g *G, n int, opts map[string]string) *Out {
 				fmt.Fprintln(os.Stderr, "toolstext:", c.Problem, c.Name)
 			}
 		}
-		o.add(c.term(), c.Position+":"+c.NameHex+":"+strconv.Itoa(c.Num), nontrivial, c)
+		o.add(c.term(), c.Position+":"+c.What+":"+c.NameHex+":"+strconv.Itoa(c.Num), nontrivial, c)
 	}
 	name := func(kind, s string) {
-		if strings.Contains(s, ttShape) || strings.Contains(s, `"start" -> `) {
+		if strings.Contains(s, ttShape) || strings.Contains(s, `"start" -> `) || strings.Contains(s, ttLabelAttr) {
 			o.count("skipped: name contains a frame delimiter")
 			return
 		}
 		for _, c := range frames["node"].observe(kind, "node", s, o) {
 			emit(c)
+		}
+		if 0 < len(s) && len(s) <= 40 { // Dot cuts longer doc strings at the first sentence
+			for _, c := range frames["doc"].observe(kind, "doc", s, o) {
+				emit(c)
+			}
 		}
 		if s == "start" {
 			return // as a target of start it is a node, not a placeholder
@@ -466,6 +528,9 @@ func toolsTextComponent(g *G, n int, opts map[string]string) *Out {
 			}
 			s, err := hex.DecodeString(c.NameHex)
 			must(err)
+			if frames[c.Position] == nil {
+				continue
+			}
 			for _, d := range frames[c.Position].observe("replay", c.Position, string(s), o) {
 				emit(d)
 			}
@@ -486,9 +551,18 @@ func toolsTextComponent(g *G, n int, opts map[string]string) *Out {
 		for _, s := range ttEnum([]string{`\`, `"`, "#", ";", "a"}, depth) {
 			name("enumerated", s)
 		}
+		depth2 := depth
+		if depth2 > 4 {
+			depth2 = 4
+		}
+		for _, s := range ttEnum([]string{"&", "<", ">", ";", "a"}, depth2) {
+			if strings.ContainsAny(s, "&<>") { // the others are in the first enumeration
+				name("enumerated", s)
+			}
+		}
 		o.count("exhaustive")
-		o.Notes = append(o.Notes, fmt.Sprintf("exhaustive small scope included: every name over the bytes { \\ \" # ; a } up to length %d, "+
-			"as a node name and as a branch target", depth))
+		o.Notes = append(o.Notes, fmt.Sprintf("exhaustive small scope included: every name over the bytes { \\ \" # ; a } up to length %d and "+
+			"over { & < > ; a } up to length %d, as a node name, as a branch target and as a doc string", depth, depth2))
 	}
 	for i := 0; i < n; i++ {
 		name("generated", g.ttName())
@@ -498,7 +572,7 @@ func toolsTextComponent(g *G, n int, opts map[string]string) *Out {
 			o.Notes = append(o.Notes, "calibration failed: "+f.problem)
 		}
 	}
-	o.Notes = append(o.Notes, "non-trivial = the name holds a quote, a backslash or '#', or the Mermaid id has two digits or more; "+
+	o.Notes = append(o.Notes, "non-trivial = the name holds a quote, a backslash or '#' (label and doc cases: '&', '<' or '>'), or the Mermaid id has two digits or more; "+
 		"texts are cut out of the output of tools.Dot / tools.Mermaid by taking the calibrated frame away (harness/toolstext.go)")
 	return o
 }
